@@ -209,6 +209,47 @@ def check(ctx):
               bad_detail="is_full must be size >= max_stack_size: it is the capacity pre-check of the predicate instructions, and with `%s` an over-full stack (maximum lowered below the "
                          "current size) is reported as not full" % (short(ps[0].ret) if ps else "-"))
     # push_many
+    from . import ckit as _Kp
+    _Kp.either(ctx, push_many_legacy, push_many_room)
+    # try_extend
+    f = ctx.fn(TE)
+    try_extend_rules(ctx, f)
+
+
+def push_many_room(ctx):
+    """the same clauses when the capacity test is spelled through the remaining room: `match max.checked_sub(size) { Some(room)
+    if n <= room => extend, _ => Err(Overflow) }` - accepted exactly when size <= max and n <= max - size, i.e. n + size <= max
+    without overflow; rejected otherwise, without touching the vector"""
+    from . import ckit as K
+    f = ctx.fn(S + "push_many")
+    paths = K.live(ctx.cpaths(f))
+    it = lambda e: match(peel(e, ()), Call("IntoIterator::into_iter", Param(2), nargs=1))
+    is_n = lambda e: callee_is(K.strip(e, calls=()), "ExactSizeIterator::len") and it(K.strip(e, calls=())[3][0])
+    is_room = lambda e: K.strip(e, calls=())[0] == "binop" and K.strip(e, calls=())[1] == "Sub" and is_max(K.strip(e, calls=())[2]) and is_size(K.strip(e, calls=())[3])
+    n_acc = 0
+    for p in paths:
+        rl = K.rels(p, norm=lambda e: e)
+        fits = K.holds(rl, is_max, "Ge", is_size) and K.holds(rl, is_n, "Le", is_room)
+        too_big = K.holds(rl, is_max, "Lt", is_size) or (K.holds(rl, is_max, "Ge", is_size) and K.holds(rl, is_n, "Gt", is_room))
+        if is_err_return(p):
+            ctx.check(too_big and not fits and overflow_err(p) and not grows(p), "R04.1", "push_many/rejects-iff-len+n>max(or-overflow)-without-write", cond_str(p)[:200] + " -> " + short(p.ret, 4), f.at(),
+                      bad_detail="push_many must reject exactly when size > max or n > max - size and must not touch the vector; extracted [%s]" % cond_str(p)[:300])
+        else:
+            n_acc += 1
+            g = grows(p)
+            shape = len(g) == 1 and callee_is(g[0], "Extend::extend", "Vec::extend") and is_values(g[0][3][0]) and match(g[0][3][1], Call("Iterator::rev", it, nargs=1))
+            # the length is read before the iterator is consumed
+            cs = p.calls()
+            lens = [c for c in cs if is_n(c)]
+            ctx.check(fits and not too_big and bool(lens) and bool(g) and cs.index(lens[0]) < cs.index(g[0]), "R04.1", "push_many/grows-only-when-len+n<=max", cond_str(p)[:200], f.at(),
+                      bad_detail="the extension is not guarded by size <= max and n <= max - size: [%s]" % cond_str(p)[:300])
+            ctx.check(shape, "R04.4", "push_many/extends-with-reversed-iterator(first-supplied-on-top)", ", ".join(short(c, 4) for c in g), f.at(),
+                      bad_detail="push_many must be values.extend(iter.rev()) so that the first supplied value ends on top; extracted " + ", ".join(short(c, 5) for c in g))
+    ctx.floor("R04.1", len(paths), 2, "push_many paths")
+    ctx.check(n_acc >= 1, "R04.1", "push_many/has-an-accepting-path", "%d" % n_acc, f.at())
+
+
+def push_many_legacy(ctx):
     f = ctx.fn(S + "push_many")
     paths = [p for p in ctx.paths(f) if p.end != "unreachable"]
     it = lambda e: match(peel(e, ()), Call("IntoIterator::into_iter", Param(2), nargs=1))
@@ -243,8 +284,11 @@ def check(ctx):
             ctx.check(shape, "R04.4", "push_many/extends-with-reversed-iterator(first-supplied-on-top)", ", ".join(short(c, 4) for c in g), f.at(),
                       bad_detail="push_many must be values.extend(iter.rev()) so that the first supplied value ends on top; extracted " + ", ".join(short(c, 5) for c in g))
     ctx.floor("R04.1", len(paths), 2, "push_many paths")
-    # try_extend
-    f = ctx.fn(TE)
+
+
+def try_extend_rules(ctx, f):
+    """the remaining rules of check() (try_extend, pop/top family, discard, ...)"""
+    F = ctx.F
     paths = [p for p in ctx.paths(f) if p.end != "unreachable"]
     for p in paths:
         cs = p.calls()
